@@ -232,15 +232,13 @@ theorem mkHand_noKey (cs : List Card) (h : Known cs) : mkHand T ht cs ≠ .error
   rcases hkey with hk | ⟨k, hk⟩
   · simp [hk]
   · simp only [hk]
-    split
-    · rename_i e he; cases he
-    · intro hh; cases hh
-    · split
-      · intro hh; cases hh
-      · rename_i e he
-        split at he
-        · cases he
-        · cases he; intro hh; cases hh
+    repeat' split
+    all_goals (intro hh; first | (cases hh; done) | (simp_all; done) | skip)
+    all_goals (
+      rename_i heq
+      split at heq
+      · cases heq
+      · cases heq; cases hh)
 
 theorem Known.sublist {a b : List Card} (h : Known b) (hs : a.Sublist b) : Known a :=
   fun c hc => h c (hs.subset hc)
